@@ -436,11 +436,11 @@ STATE_WORDS = ['Idle', 'Active', 'Done', 'Open', 'Closed', 'HTTPServer', 'IOErro
                'Err', 'Some', 'None', 'Result', 'Option', 'Default', 'Debug',
                'LaunchPrep', 'In_Flight', 'lower', 'Zed', 'Alpha', 'Beta', 'Gamma', 'Delta', 'K8s', 'Standby', 'Up',
                'Dn', 'L', 'M', 'N', 'Wait', 'Ready', 'Busy', 'ParseXML', 'Mid', 'Deep', 'Far', 'R2D2', 'Ab', 'AbC',
-               'ready', 'rr2', 'HalfOpen', 'r_state']
+               'ready', 'rr2', 'HalfOpen', 'r_state', 'Any', 'All', 'any', 'Initial', 'State', 'Event']
 SUPER_WORDS = ['Flight', 'Group', 'Outer', 'Inner', 'Net', 'P', 'W', 'Zone', 'Core', 'Shell', 'Top', 'Sub', 'GRP', 'Ring1']
 EVENT_WORDS = ['go', 'stop', 'launch', 'land', 'abort', 'tick', 'next', 'reset', 'a', 'b', 'x1', 'set_thrust',
                'enter_half_open', 'e2', 'do_it', 'http_get', 'io', 'step', 'flip', 'ping', 'k_9', 'retry', 'fire',
-               'verify_2fa', 'retry_3x', 'go_4th_gear', 'phase_2_start', 'x_1_y2z']
+               'verify_2fa', 'retry_3x', 'go_4th_gear', 'phase_2_start', 'x_1_y2z', 'any', 'all']
 HOOK_WORDS = ['check', 'ok', 'ready', 'log', 'audit', 'pre', 'post', 'wrap', 'g1', 'g2', 'is_set', 'deny', 'tx',
               'fuel_ok', 'note', 'h', 'hk2', 'veto', 'warm', 'cool', 'gate', 'Trace', 'onEnter']
 TYPES = [['u32'], ['D'], ['Vec', '<', 'u8', '>'], ['(', 'u32', ',', 'u8', ')'], ['&', "'static", 'str'],
